@@ -313,20 +313,20 @@ def class_source(c):
     if c.get('recognize') is not None:
         body.append('    @classmethod')
         body.append('    def _yatiml_recognize(cls, node: yatiml.UnknownNode) -> None:')
-        body.append("        _LOG.append(('rec', {!r}))".format(c['name']))
+        body.append("        _LOG.append(('rec', {!r}, cls.__name__))".format(c['name']))
         for op in c['recognize']:
             body.append('        ' + rec_src(op))
     if c.get('savorize') is not None:
         body.append('    @classmethod')
         body.append('    def _yatiml_savorize(cls, node: yatiml.Node) -> None:')
-        body.append("        _LOG.append(('sav', {!r}))".format(c['name']))
+        body.append("        _LOG.append(('sav', {!r}, cls.__name__))".format(c['name']))
         for op in c['savorize']:
             for l in sav_src(op):
                 body.append('        ' + l)
     if c.get('sweeten') is not None:
         body.append('    @classmethod')
         body.append('    def _yatiml_sweeten(cls, node: yatiml.Node) -> None:')
-        body.append("        _LOG.append(('swe', {!r}))".format(c['name']))
+        body.append("        _LOG.append(('swe', {!r}, cls.__name__))".format(c['name']))
         for op in c['sweeten']:
             for l in sav_src(op):
                 body.append('        ' + l)
